@@ -27,12 +27,17 @@ def tok_obligations(tier: str, seed: int, mode: str) -> tuple[list[Obl], dict]:
                         group=key))
 
     if tier == "quick":
-        nrot = 9 if mode == "geom" else 13
+        # the scanning code is shared by all dialects, only the tables differ: the base family and a seed-rotated
+        # few get every context template, every other family the two templates that exercise its own delimiters
+        nfull = 3 if mode == "geom" else 2
+        others = ("between", "quote[") if mode == "geom" else ("empty",)
+        rest = [i for i in range(len(fams)) if fams[i][0] != ""]
+        full = {i for i in range(len(fams)) if fams[i][0] == ""}
+        for k in range(nfull):
+            full.add(rest[(seed * nfull + k) % len(rest)])
         for i, f in enumerate(fams):
-            full = i % nrot == seed % nrot
             for ctx in tokctx.contexts(f[0]):
-                if full or (ctx[3] and (not ctx[0].startswith("multiword") or i % 3 == seed % 3)
-                            and (ctx[0] != "between" or i % 2 == seed % 2)):
+                if i in full or ctx[0].startswith(others):
                     add(f[0], f, ctx, 0, 1, 150)
     else:
         for g in groups:
